@@ -926,6 +926,16 @@ class KmipEngine(object):
                 field = "sensitive"
 
             if field:
+                if not hasattr(managed_object, field):
+                    raise exceptions.InvalidField(
+                        "Cannot set {0} attribute on {1} object.".format(
+                            attribute_name,
+                            ''.join(
+                                [x.capitalize() for x in
+                                 managed_object._object_type.name.split('_')]
+                            )
+                        )
+                    )
                 existing_value = getattr(managed_object, field)
                 if existing_value:
                     if existing_value != value:
